@@ -79,3 +79,12 @@ Section ComposeFsdp.
     cbn [snd]. unfold abs_blocks, tab. rewrite map_map. cbn [b_w]. rewrite Hv. reflexivity.
   Qed.
 End ComposeFsdp.
+
+(* non-vacuity: the hypotheses of the two composition theorems hold on the non-trivial instance of FsdpWitness.v (a rank
+   holding elements [2,10) of a (3,4) parameter - three recovered pieces -, an empty shard and a whole (2,3) parameter, a
+   three-step history with absent gradients), taken over the integer-valued scalar instance *)
+From Shampoo Require FsdpWitness.
+Example fsdp_composition_hypotheses_satisfiable :
+  (1 <= 2)%Z /\ Forall meta_ok FsdpWitness.ex_ms /\ tensors_ok FsdpWitness.ex_ms FsdpWitness.ex_T
+  /\ Forall (pentry_ok FsdpWitness.ex_ms) FsdpWitness.ex_h.
+Proof. split; [lia|exact FsdpWitness.ex_hypotheses]. Qed.
